@@ -32,7 +32,8 @@ def plan(tier, seed):
     if tier == "quick":
         for i in range(16):
             specs.append({"kind": "boundary", "part": i, "of": 16})
-        specs.append({"kind": "stride", "stride": 211, "n": 14000})
+        for i in range(4):
+            specs.append({"kind": "stride", "stride": 211 * 4, "n": 3500, "phase": i * 211})
         for i in range(6):
             specs.append({"kind": "programs", "part": i, "of": 6, "years": "sample"})
         specs.append({"kind": "times", "n": 20000})
@@ -80,6 +81,8 @@ class Contract:
 
         def roundtrips(oadate, result):
             mon.evaluations += 1
+            if not (isinstance(oadate, (int, float)) and 2 <= oadate < 2958466):
+                return True    # the statement is about representable dates (1900-01-01 .. 9999-12-31)
             try:
                 back = real_to_oa(result)
                 ok = abs(back - oadate) < 0.6 / 86400.0
@@ -180,6 +183,8 @@ def run_programs(spec, ctx):
 
     lo, hi = datetime.date(1900, 1, 1).toordinal(), datetime.date(9999, 12, 31).toordinal()
     for y in years:
+        if y % 3 == 1:
+            perturb(ctx, r, it)
         for d in boundary_days(y):
             cls = dayclass(d)
             s = d.strftime("%Y%m%d") if d.year >= 1000 else None
@@ -205,12 +210,35 @@ def run_programs(spec, ctx):
     ctx.sample({"years": len(years), "example": "string(date('20240229') + 366)"})
 
 
+def perturb(ctx, r, it):
+    """conversions whose own result the statement does not fix (fractions of a second, a time of day within a
+    millisecond of midnight, out-of-range numbers) made between the checked ones: whatever they leave behind in
+    the process must not change any later conversion"""
+    import ckl.date
+    import ckl.functions
+    n = r.choice([2, 59, 60, 61, 25569, 36525, 36678, 46236, 73050, 401768, 2958464])
+    f = r.choice([0.99999999999, 1 - 1e-9, 0.999999995, 0.9999999, 0.99999, 0.5, 0.999994212963, 1e-9, 0.000005])
+    forms = ["date(%r)" % (n + f), "date('20260802162156') + %r" % ((86400 - 58916) / 86400.0), "date(%d) + %r" % (n, f),
+             "date(%d) - %r" % (n + 1, 1 - f), "date(%r)" % -(n + f), "date(0)", "date(%r)" % (2958465 + f), "date(2958466)",
+             "date('%s') - date(%r)" % ("20000229", n + f), "int(date(%r))" % (n + f), "decimal(date(%r))" % (n + f)]
+    src = r.choice(forms)
+    env = ckl.functions.Environment()
+    observe(lambda: it.interpret("do %s catch all NULL end" % src, "c17", env), 3000000)
+    try:
+        ckl.date.to_date(n + f)
+    except Exception:  # noqa
+        pass
+    ctx.count("perturbing_conversions")
+
+
 def run_times(spec, ctx):
     import ckl.date
     import ckl.functions
     r = ctx.rng
     it, out = core.new_interpreter(secure=True, legacy=True)
     for i in range(spec["n"]):
+        if i % 5 == 2:
+            perturb(ctx, r, it)
         y = r.choice([1900, 1950, 1969, 1970, 1971, 2000, 2024, 2100, 5000, 9999])
         dt = datetime.datetime(y, r.randint(1, 12), r.randint(1, 28), r.randint(0, 23), r.randint(0, 59), r.randint(0, 59))
         ctx.case(("time", dt.isoformat()))
@@ -318,6 +346,8 @@ def run_shard(spec, ctx):
 def finalize(merged, tier):
     c = merged["counters"]
     reasons = []
+    if c.get("perturbing_conversions", 0) == 0:
+        reasons.append("no perturbing conversions were made")
     for k in ("to_oa_date_calls", "to_date_calls", "program_evaluations", "time_roundtrips", "contract_evaluations"):
         if c.get(k, 0) == 0:
             reasons.append("monitor counter %s is zero" % k)
